@@ -310,6 +310,11 @@ func handleHotRestart(s *Session, hdr header, buf []byte) (int, bool, error) {
 	if len(buf) < epochIDLen {
 		return 0, true, nil
 	}
+	if s.manager == nil {
+		// only sessions owned by a SessionManager take part in hot restart, the others ignore the request
+		s.logger.warnf("%s receive hot restart but the session has no SessionManager, ignored", s.sessionName())
+		return headerSize + epochIDLen, false, nil
+	}
 	epochID := binary.BigEndian.Uint64(buf[:epochIDLen])
 	s.logger.warnf("%s [epoch:%d] receive hot restart", s.sessionName(), epochID)
 
@@ -323,6 +328,10 @@ func handleHotRestart(s *Session, hdr header, buf []byte) (int, bool, error) {
 func handleHotRestartAck(s *Session, hdr header, buf []byte) (int, bool, error) {
 	if len(buf) < epochIDLen {
 		return 0, true, nil
+	}
+	if s.listener == nil {
+		// only sessions accepted by a Listener take part in hot restart
+		return headerSize + epochIDLen, false, ErrInvalidMsgType
 	}
 	epochID := binary.BigEndian.Uint64(buf[:epochIDLen])
 	s.logger.warnf("%s [epoch:%d] receive hot restart ack", s.name, epochID)
